@@ -204,18 +204,21 @@ func volatilityInds() []Ind {
 			Build: func(c Config) (func([]C) []C, int) {
 				a := volatility.NewKeltnerChannelWithPeriod[float64](c.P[0])
 				a.Atr = volatility.NewAtrWithPeriod[float64](c.P[1])
+				if len(c.S) > 0 {
+					a.Ema.Smoothing = c.Sm(0)
+				}
 				return func(in []C) []C { return o3(a.Compute(in[0], in[1], in[2])) }, a.IdlePeriod()
 			},
 			Doc: "Middle Line = EMA(period, closings); Upper Band = EMA + 2 * ATR(period, highs, lows, closings); Lower Band = EMA - 2 * ATR",
 			Ref: func(c Config, in In) []ref.S {
-				e := ref.Ema(in[Close], c.P[0])
+				e := ref.EmaK(in[Close], c.P[0], c.Sm(0))
 				a2 := ref.ScaleS(ref.SmaDiv(trRef(in), c.P[1]), 2)
 				return []ref.S{ref.AddS(e, a2), ref.Tail(e, a2.At), ref.SubS(e, a2)}
 			},
-			PriceDeg: []int{1, 1, 1}, VolDeg: []int{0, 0, 0}, Recursive: true,
+			PriceDeg: []int{1, 1, 1}, VolDeg: []int{0, 0, 0}, Recursive: true, NS: 1,
 		},
 		{
-			Name: "MovingStd", Inputs: []string{X}, Params: []Param{per("period", 20)}, Outs: []string{"std"},
+			Name: "MovingStd", Inputs: []string{X}, Params: []Param{per("period", 1)}, Outs: []string{"std"},
 			Build: func(c Config) (func([]C) []C, int) {
 				a := volatility.NewMovingStdWithPeriod[float64](c.P[0])
 				return func(in []C) []C { return o1(a.Compute(in[0])) }, a.IdlePeriod()
